@@ -79,6 +79,47 @@ func c14Load() {
 
 func c14WordList() []string { c14Once.Do(c14Load); return c14Words }
 
+// identifier families: words a lexer change could start to treat specially
+// because of a prefix, suffix or marker although they are not table keys.
+var c14Prefixes = []string{"sp_", "xp_", "sys_", "pg_", "fn_", "dbms_", "utl_", "mysql_", "is_", "get_", "set_", "tbl_", "col_", "db_", "user_", "current_", "local", "session_", "information_", "master_", "x", "0x"[1:], "q", "nq", "n", "e", "b", "u", "_"}
+var c14Specials = []string{"sp_password", "sp_passwords", "my_sp_password", "xp_cmdshell_log", "information_schemas", "pg_sleepy", "sleeper", "benchmarks", "selected", "unions", "inserted", "updates", "dropped", "wherever", "fromage", "orca", "android", "notary", "likeness", "nullable", "intox", "havingness", "ifs", "elsewhere"}
+
+// c14Pick draws a word: style 0 general, style>0 homogeneous prefix family.
+func c14Pick(r *core.Rng, words []string, style int) string {
+	for tries := 0; tries < 8; tries++ {
+		w := words[r.Intn(len(words))]
+		if style > 0 {
+			w = c14Prefixes[(style-1)%len(c14Prefixes)] + w
+		} else if r.Intn(10) == 0 {
+			w = c14Specials[r.Intn(len(c14Specials))]
+		}
+		if c14Admitted(w) {
+			return w
+		}
+	}
+	return words[r.Intn(len(words))]
+}
+
+var c14Banned map[string]bool
+var c14BanOnce sync.Once
+
+// c14Admitted: not a key, not a space/dot-separated component of a key.
+func c14Admitted(w string) bool {
+	c14BanOnce.Do(func() {
+		c14Banned = map[string]bool{}
+		for k := range keywords() {
+			c14Banned[k] = true
+			for _, part := range strings.FieldsFunc(k, func(r rune) bool { return r == ' ' || r == '.' }) {
+				c14Banned[part] = true
+			}
+		}
+	})
+	if w == "" || !(isLetter(w[0]) || w[0] == '_') {
+		return false
+	}
+	return !c14Banned[asciiUpper(w)]
+}
+
 var c14Numbers = []string{"0", "1", "7", "10", "42", "007", "123", "2024", "65535", "1234567890", "99999999999999999999", "1234567890123456789012345678901", "12345678901234567890123456789012", "123456789012345678901234567890123"}
 
 // shapes: W word, N number; other bytes literal.
@@ -94,10 +135,14 @@ var c14Shapes = []string{
 
 func c14Instantiate(shape string, r *core.Rng, words []string) string {
 	var b strings.Builder
+	style := 0
+	if r.Intn(3) == 0 {
+		style = 1 + r.Intn(len(c14Prefixes))
+	}
 	for i := 0; i < len(shape); i++ {
 		switch shape[i] {
 		case 'W':
-			b.WriteString(words[r.Intn(len(words))])
+			b.WriteString(c14Pick(r, words, style))
 		case 'N':
 			b.WriteString(c14Numbers[r.Intn(len(c14Numbers))])
 		default:
@@ -110,7 +155,7 @@ func c14Instantiate(shape string, r *core.Rng, words []string) string {
 func c14() *core.Check {
 	return &core.Check{
 		ID: "C14",
-		Rule: "G_benign against the LIVE keyword table: word = [A-Za-z_][A-Za-z0-9_]* from a frozen list (4000 English words in three capitalisations + identifier shapes of length 1-40) that is not a key, component or dotted prefix of a key; number = [0-9]+ incl. 31/32/33-digit runs; (1) the token-class abstraction exhaustively: all 62 sequences over {n,1} of length 1-5 must be absent from the live blacklist; (2) every sequence shape over {word,number} up to length 7 joined by single spaces, 64 (thorough 2048) random instantiations each; (3) e-mail / decimal / sentence shapes (those not dropped by the one-time calibration), sampled. Oracle: IsSQLi = (false,\"\"). " +
+		Rule: "G_benign against the LIVE keyword table: word = [A-Za-z_][A-Za-z0-9_]* from a frozen list (4000 English words in three capitalisations + identifier shapes of length 1-40), also behind 28 identifier prefixes (sp_, xp_, pg_, is_, ... one family per sequence) and mixed with marker-like words (sp_password, near-keywords) that is not a key, component or dotted prefix of a key; number = [0-9]+ incl. 31/32/33-digit runs; (1) the token-class abstraction exhaustively: all 62 sequences over {n,1} of length 1-5 must be absent from the live blacklist; (2) every sequence shape over {word,number} up to length 7 joined by single spaces, 64 (thorough 2048) random instantiations each; (3) e-mail / decimal / sentence shapes (those not dropped by the one-time calibration), sampled. Oracle: IsSQLi = (false,\"\"). " +
 			"Non-trivial = every instance; distinct by string. The per-context fingerprints are recorded to show that the n/1 abstraction is what the implementation produced.",
 		Exhaustive: false,
 		Plan: func(tier string, seed uint64) []core.Unit {
@@ -142,11 +187,15 @@ func c14() *core.Check {
 						l++
 					}
 					var parts []string
+					style := 0
+					if i%2 == 1 {
+						style = 1 + r.Intn(len(c14Prefixes))
+					}
 					for j := 0; j < l; j++ {
 						if k>>uint(j)&1 == 1 {
 							parts = append(parts, c14Numbers[r.Intn(len(c14Numbers))])
 						} else {
-							parts = append(parts, words[r.Intn(len(words))])
+							parts = append(parts, c14Pick(r, words, style))
 						}
 					}
 					emit(core.Case{In: strings.Join(parts, " "), Kind: "seq"})
